@@ -141,6 +141,16 @@ package dynblock
 //@ ensures blocks: ret != nil && len(ret.Blocks) == len(got.Blocks) && (forall j int :: { ret.Blocks[j] } 0 <= j && j < len(ret.Blocks) ==> ret.Blocks[j] != nil && typeis(ret.Blocks[j].Body, unknownBody) && unbox(ret.Blocks[j].Body, unknownBody).valueMarks == b.valueMarks)
 //@ loop 1 invariant ret != nil && fresh(ret) && fresh(ret.Blocks) && len(ret.Blocks) == rangeindex + 1 && rangeindex + 1 <= len(got.Blocks) && (forall j int :: { ret.Blocks[j] } 0 <= j && j < len(ret.Blocks) ==> ret.Blocks[j] != nil && fresh(ret.Blocks[j]) && typeis(ret.Blocks[j].Body, unknownBody) && unbox(ret.Blocks[j].Body, unknownBody).valueMarks == b.valueMarks)
 
+// ---- what a dynamic block's for_each denotes (unit U13e, C18/C06) ----
+// verif:unit U13e props=C18,C06
+// The specification decoded from a dynamic block iterates over exactly the value its for_each
+// expression has in the for_each scope - marks included, at the depth the expression put them:
+// the value is not rebuilt, re-marked or unmarked on the way into the expandSpec.
+// verif:func (*expandBody).decodeSpec
+//@ nosafety
+//@ requires blockS != nil && rawSpec != nil
+//@ ensures foreach: ret0 != nil ==> (exists x hcl.Expression :: { exprVal(x, old(b.forEachCtx)) } ret0.forEachVal == exprVal(x, old(b.forEachCtx)))
+
 // ---- the extended schema is built in fresh memory (unit U13d, C17) ----
 // verif:unit U13d props=C17
 // extendSchema must not write the caller's schema (which is shared between concurrent content
